@@ -34,6 +34,24 @@ def occurrences(name, p, mem):
     return cond.find_all(mem, p)
 
 
+def add_compile_noise(rng, rs):
+    """Things that must not change what the rule set means: (a) texts the compiler refuses — a second rule with
+    the name of a rule already declared in that namespace (other flags, other condition) — after which the same
+    compiler is used further; (b) external symbols carrying the name of a rule (a rule name takes precedence
+    over a symbol of that name).  Recorded in rs["refused"] / rs["csymbols"]; the model does not see them."""
+    refused, syms = [], []
+    rules = rs["rules"]
+    for i, r in enumerate(rules):
+        if i + 1 < len(rules) and rng.chance(1, 3):
+            v = rng.choice(rules[:i + 1])
+            refused.append({"after": i, "ns": v["ns"], "name": v["name"], "global": rng.chance(1, 2),
+                            "private": rng.chance(1, 3), "cond": rng.chance(1, 2)})
+        if rng.chance(1, 4):
+            syms.append({"name": r["name"], **rng.choice([{"bool": True}, {"bool": False}, {"int": 0}, {"int": 7}])})
+    rs["refused"], rs["csymbols"] = refused, syms
+    return rs
+
+
 def gen_ruleset(rng, max_rules=6, max_ns=3, depth=2, allow_for=True, cond_kinds=None, global_refs_ordinary=False,
                 poison=0, raw_regex=0, nocase=0):
     """Returns a JSON-serialisable rule set: {"rules": [...]} in declaration order."""
@@ -249,7 +267,14 @@ def rule_text(r, printer_cls=cond.Printer):
 def harness_rules(rs, imports=()):
     """One add_rules_str_in_namespace call per rule, in declaration order (imports go with the first rule, so
     that no extra namespace is created)."""
-    out = [{"ns": "ns%d" % r["ns"], "src": rule_text(r)} for r in rs["rules"]]
+    out = []
+    for i, r in enumerate(rs["rules"]):
+        out.append({"ns": "ns%d" % r["ns"], "src": rule_text(r)})
+        for x in rs.get("refused", ()):
+            if x["after"] == i:
+                mods = ("global " if x["global"] else "") + ("private " if x["private"] else "")
+                out.append({"ns": "ns%d" % x["ns"], "expect_error": True,
+                            "src": "%srule %s { condition: %s }\n" % (mods, x["name"], "true" if x["cond"] else "false")})
     if imports and out:
         out[0]["src"] = "".join('import "%s"\n' % m for m in imports) + out[0]["src"]
     return out
